@@ -288,7 +288,13 @@ func (tm *Termer) of(v ssa.Value) *Term {
 	case *ssa.Lookup:
 		return &Term{Op: "index", Args: []*Term{tm.Of(v.X), tm.Of(v.Index)}}
 	case *ssa.Extract:
-		// inline-able multi-result callees are not expanded; keep the tuple index
+		// a value obtained through an unexported in-repository helper "(x, err)" that
+		// returns one and the same x on every non-failing return is that x
+		if c, ok := v.Tuple.(*ssa.Call); ok && tm.Inline && tm.depth < maxInlineDepth {
+			if t := tm.tryInlineResult(c, v.Index); t != nil {
+				return t
+			}
+		}
 		return &Term{Op: "extract", Name: fmt.Sprint(v.Index), Args: []*Term{tm.Of(v.Tuple)}}
 	case *ssa.Phi:
 		seen := map[string]*Term{}
